@@ -108,8 +108,9 @@ def run_case(c, d):
             else:
                 p = E.build(cls, d['p'], x, NFFT=nf, fs=d['fs'], scale=False)
             psd = np.asarray(p.psd)
-            log.append({'role': role, 'psd': psd, 'exposed': E.exposed(p), 'freqs': np.asarray(p.frequencies()),
-                        'error': None})
+            log.append({'role': role, 'psd': np.array(psd, copy=True), 'exposed': {k: np.array(v, copy=True) for k, v in E.exposed(p).items()},
+                        'freqs': np.asarray(p.frequencies()), 'error': None})
+            p = None            # short-lived object: the next one must not depend on what a dead one left behind
         except Exception as exc:
             log.append({'role': role, 'error': exc})
     if log[0]['error'] is not None and log[1]['error'] is not None:
